@@ -2,6 +2,7 @@ import ReplicatProofs.Lemmas.SchedSnap
 import ReplicatProofs.Lemmas.SchedLocks
 import ReplicatProofs.Lemmas.SchedFin
 import ReplicatProofs.Lemmas.SchedLife
+import ReplicatProofs.Lemmas.SchedLat
 import ReplicatProofs.Properties.C01
 /-!
 # C09 — snapshot and restore do not depend on thread or I/O scheduling
@@ -10,7 +11,8 @@ Property theorems only.  Objects: the transition systems of `ReplicatModel/Sched
 `run step s₀ evs = some s` = "every event was enabled when it was taken", so every theorem below quantifies over ALL schedules
 (any number of slots, workers, chunks, writer jobs, loaders, files).  The shapes the proofs depend on (slot numbering, release in
 `finally`, the worker's loop test, the abort protocol incl. the producer's put that re-tests the abort flag while the queue is full,
-delete-at-zero, decision under the lock) are the *generated* `Replicat.Gen` definitions and are discharged by `decide`: an edit to /repo that changes one of them breaks the proof.
+delete-at-zero, decision under the lock, slot requests that block without a time-out and the absence of any other finite wait
+that gives up) are the *generated* `Replicat.Gen` definitions and are discharged by `decide`: an edit to /repo that changes one of them breaks the proof.
 
 PARTIAL claim: pre-emption inside CPython byte code between the instrumented points, the GIL and the event loop's internals are
 not modelled; liveness = deadlock freedom + a bound on the number of progress steps, not a time bound.
@@ -171,6 +173,54 @@ enabled; after dropping the queue and letting the running loader finish, the ope
 example : run (Life.step true) (Life.init 1 3) [.begin, .grant, .begin, .finish false, .ret] = none := by decide
 example : run (Life.step true) (Life.init 1 3) [.begin, .grant, .begin, .finish false, .dropQueued, .grant, .finish true, .ret, .close]
       = some ⟨1, 0, 0, 0, true, true, true, 0⟩ := by decide
+
+/-! ## S1″ — the outcome does not depend on how long a transfer takes -/
+
+/-- **No wait of the source gives up after a while** (shape read from the source on every run): the two slot requests
+(`_acquire_slot`, `_acquire_slot_threadsafe`) block until a slot is free, and repository.py has no other wait with a finite
+time-out that is not retried — the model has no transition for one.  A request with a time-out (`….result(timeout=30)`,
+`wait_for(…, 30)`) makes `slotWaitBounded` true and this stops compiling, together with the two theorems below. -/
+theorem timed_waits_covered : Gen.slotWaitBounded = false ∧ Gen.unmodelledTimedWaits = [] := by decide
+
+/-- **However slow the backend is, no job fails for it.**  Along every schedule of slot requests, grants, transfer ends and
+arbitrary delays (`delay d`: `d` ms pass, at any moment), with the request as the source has it (`Lat.tmo`), no
+job ever gives up waiting: the only failures of an operation are failed transfers. -/
+theorem latency_never_fails (n jobs : Nat) (evs : List LatEv) (σ : Lat)
+    (h : run (Lat.step Lat.tmo) (Lat.init n jobs) evs = some σ) : σ.timedOut = 0 := by
+  have ht : Lat.tmo = none := by decide
+  rw [ht] at h
+  exact run_inv (Lat.step none) (fun σ => σ.timedOut = 0)
+    (fun s e s' hi hs => (lat_step_no_timeout s e s' hs).trans hi) evs _ _ rfl h
+
+/-- **The result is the one of the zero-latency run.**  Whatever the delays: slots are conserved; while the operation is not over
+something other than the passage of time is enabled (no deadlock, `n ≥ 1`); and when nothing is queued, waiting or in flight any
+more, *every* job has completed its transfer and all `n` slots are back — exactly the state the sequential run ends in. -/
+theorem latency_result_independent (n jobs : Nat) (hn : 0 < n) (evs : List LatEv) (σ : Lat)
+    (h : run (Lat.step Lat.tmo) (Lat.init n jobs) evs = some σ) :
+    σ.free + σ.held = n ∧
+    (σ.quiet = true → σ.done = jobs ∧ σ.free = n) ∧
+    (σ.quiet = false → ∃ e ∈ Lat.moves, (Lat.step Lat.tmo σ e).isSome = true) := by
+  have h0 := latency_never_fails n jobs evs σ h
+  have hinv : LatInv n jobs σ :=
+    run_inv (Lat.step Lat.tmo) (LatInv n jobs) (fun s e s' hi hs => lat_step_inv Lat.tmo n jobs s e s' hi hs) evs _ _ (lat_init_inv n jobs) h
+  refine ⟨hinv.slots, ?_, fun hq => lat_progress Lat.tmo n jobs hn σ hinv hq⟩
+  intro hq
+  obtain ⟨h1, h2⟩ := hinv
+  simp only [Lat.quiet, Bool.and_eq_true, beq_iff_eq, List.isEmpty_iff] at hq
+  obtain ⟨⟨hq1, hq2⟩, hq3⟩ := hq
+  rw [hq2] at h2
+  simp only [List.length_nil] at h2
+  exact ⟨by omega, by omega⟩
+
+/-- *Negation witness for a bounded slot request* (what the model says about `….result(timeout=T)`): one slot, two jobs, the first
+transfer takes `T` ms — the second job gives up and raises although no transfer failed, for every bound `T`. -/
+theorem bounded_slot_wait_fails_witness (T : Nat) :
+    (run (Lat.step (some T)) (Lat.init 1 2) (Lat.slowSchedule T)).map (fun σ => (σ.timedOut, σ.done, σ.held)) = some (1, 0, 1) := by
+  simp [run, Lat.step, Lat.init, Lat.slowSchedule, slotCount_eq]
+
+example : (run (Lat.step Lat.tmo) (Lat.init 1 2) [.request, .grant, .request, .delay 1000000, .finish, .grant, .finish]).map
+    (fun σ => (σ.done, σ.free, σ.timedOut, σ.quiet)) = some (2, 1, 0, true) := by decide
+example : run (Lat.step Lat.tmo) (Lat.init 1 2) (Lat.slowSchedule 30000) = none := by decide
 
 /-! ## S2 — snapshot: producer, bounded queue, workers -/
 
